@@ -18,8 +18,24 @@ pub trait Whole: Clone + PartialEq + Send + 'static {
     fn split(self) -> (Self::E, Self::D);
     /// None: the expansion has no unsplit
     fn unsplit(e: Self::E, d: Self::D) -> Option<Result<Self, ()>>;
+    /// typed helper of the combined object for a 6-byte client header, re-serialised to the wire layout (None: no such helper)
+    fn dec_typed6(&mut self, _d: [u8; 6]) -> Option<[u8; 6]> {
+        None
+    }
+    fn enc_typed6(&mut self, _plain: [u8; 6]) -> Option<[u8; 6]> {
+        None
+    }
+    /// replace the sending half through the `encrypter()` accessor by the sending half of `other`
+    fn swap_encrypter(&mut self, other: &mut Self);
     /// (whole object under test, model of its encrypt direction, model producing what it must decrypt)
     fn make(k: [u8; 40]) -> (Self, Model, Model);
+}
+
+
+fn ser6(size: u16, opcode: u32) -> [u8; 6] {
+    let s = size.to_be_bytes();
+    let o = opcode.to_le_bytes();
+    [s[0], s[1], o[0], o[1], o[2], o[3]]
 }
 
 #[derive(Clone)]
@@ -75,6 +91,16 @@ impl Whole for vanilla_header::HeaderCrypto {
         let (c, _s) = objs::vanilla_pair(k);
         (c, Model::Add(ModelAdd::new(&k)), Model::Add(ModelAdd::new(&k)))
     }
+    fn dec_typed6(&mut self, d: [u8; 6]) -> Option<[u8; 6]> {
+        let h = self.decrypt_client_header(d);
+        Some(ser6(h.size, h.opcode))
+    }
+    fn enc_typed6(&mut self, p: [u8; 6]) -> Option<[u8; 6]> {
+        Some(self.encrypt_client_header(u16::from_be_bytes([p[0], p[1]]), u32::from_le_bytes([p[2], p[3], p[4], p[5]])))
+    }
+    fn swap_encrypter(&mut self, other: &mut Self) {
+        std::mem::swap(self.encrypter(), other.encrypter());
+    }
 }
 impl Whole for tbc_header::HeaderCrypto {
     type E = tbc_header::EncrypterHalf;
@@ -97,6 +123,16 @@ impl Whole for tbc_header::HeaderCrypto {
         let mk = tbc_key(&k);
         (c, Model::Add(ModelAdd::new(&mk)), Model::Add(ModelAdd::new(&mk)))
     }
+    fn dec_typed6(&mut self, d: [u8; 6]) -> Option<[u8; 6]> {
+        let h = self.decrypt_client_header(d);
+        Some(ser6(h.size, h.opcode))
+    }
+    fn enc_typed6(&mut self, p: [u8; 6]) -> Option<[u8; 6]> {
+        Some(self.encrypt_client_header(u16::from_be_bytes([p[0], p[1]]), u32::from_le_bytes([p[2], p[3], p[4], p[5]])))
+    }
+    fn swap_encrypter(&mut self, other: &mut Self) {
+        std::mem::swap(self.encrypter(), other.encrypter());
+    }
 }
 impl Whole for wrath_header::ClientCrypto {
     type E = wrath_header::ClientEncrypterHalf;
@@ -118,6 +154,12 @@ impl Whole for wrath_header::ClientCrypto {
         let (c, _s) = objs::wrath_pair(k);
         (c, Model::Rc4(wrath_model(&WRATH_S, &k)), Model::Rc4(wrath_model(&WRATH_R, &k)))
     }
+    fn enc_typed6(&mut self, p: [u8; 6]) -> Option<[u8; 6]> {
+        Some(self.encrypt_client_header(u16::from_be_bytes([p[0], p[1]]), u32::from_le_bytes([p[2], p[3], p[4], p[5]])))
+    }
+    fn swap_encrypter(&mut self, other: &mut Self) {
+        std::mem::swap(self.encrypter(), other.encrypter());
+    }
 }
 impl Whole for wrath_header::ServerCrypto {
     type E = wrath_header::ServerEncrypterHalf;
@@ -138,6 +180,13 @@ impl Whole for wrath_header::ServerCrypto {
     fn make(k: [u8; 40]) -> (Self, Model, Model) {
         let (_c, s) = objs::wrath_pair(k);
         (s, Model::Rc4(wrath_model(&WRATH_R, &k)), Model::Rc4(wrath_model(&WRATH_S, &k)))
+    }
+    fn dec_typed6(&mut self, d: [u8; 6]) -> Option<[u8; 6]> {
+        let h = self.decrypt_client_header(d);
+        Some(ser6(h.size, h.opcode))
+    }
+    fn swap_encrypter(&mut self, other: &mut Self) {
+        std::mem::swap(self.encrypter(), other.encrypter());
     }
 }
 
@@ -162,20 +211,23 @@ pub fn history<W: Whole>(rep: &mut Rep, k: [u8; 40], hseed: u64, max_ops: usize,
     let mut replicas: Vec<Rep1<W>> = vec![Rep1::Whole(obj)];
     let n_ops = 1 + rng.below(max_ops as u64) as usize;
     let mut last2 = (9u64, 9u64);
+    let mut swapped = false;
     let mut trace: Vec<u8> = Vec::new();
     for step in 0..n_ops {
-        let op = match rng.below(20) {
+        let op = match rng.below(22) {
             0..=7 => 0u64,
             8..=15 => 1,
             16 => 2,
             17 => 3,
-            _ => 4,
+            18 | 19 => 4,
+            _ => 5,
         };
         trace.push(op as u8);
         match op {
             0 | 1 => {
-                let len = match rng.below(6) {
+                let len = match rng.below(7) {
                     0 => 0,
+                    6 => 6,
                     1 => 1 + rng.below(6) as usize,
                     2 => 39 + rng.below(4) as usize,
                     _ => rng.below(max_chunk as u64 + 1) as usize,
@@ -190,14 +242,27 @@ pub fn history<W: Whole>(rep: &mut Rep, k: [u8; 40], hseed: u64, max_ops: usize,
                     m_peer.enc(&mut w);
                     (w, plain.clone())
                 };
+                let typed = len == 6 && rng.chance(1, 2);
                 for (ri, r) in replicas.iter_mut().enumerate() {
                     let mut d = input.clone();
                     let res = guard(|| match r {
                         Rep1::Whole(w) => {
-                            if op == 0 {
-                                w.enc(&mut d)
-                            } else {
-                                w.dec(&mut d)
+                            // the typed helper of the combined object for header-sized chunks, else the raw call
+                            let mut done = false;
+                            if typed {
+                                let a6 = [d[0], d[1], d[2], d[3], d[4], d[5]];
+                                let out = if op == 0 { w.enc_typed6(a6) } else { w.dec_typed6(a6) };
+                                if let Some(o) = out {
+                                    d.copy_from_slice(&o);
+                                    done = true;
+                                }
+                            }
+                            if !done {
+                                if op == 0 {
+                                    w.enc(&mut d)
+                                } else {
+                                    w.dec(&mut d)
+                                }
                             }
                         }
                         Rep1::Halves(e, x) => {
@@ -258,12 +323,52 @@ pub fn history<W: Whole>(rep: &mut Rep, k: [u8; 40], hseed: u64, max_ops: usize,
                 }
                 rep.count("clones", 1);
             }
+            5 => {
+                // every replica gets its sending half replaced (through the accessor, or by assignment when split) by the
+                // sending half of a fresh object with another key; the receive direction must not notice
+                let k2: [u8; 40] = rng.arr();
+                let made = guard(|| W::make(k2));
+                let (fresh, m2, _) = match made {
+                    Ok(x) => x,
+                    Err(e) => {
+                        rep.violation(&format!("c12:{}:panic:construct", W::NAME), e, replay);
+                        return;
+                    }
+                };
+                for r in replicas.iter_mut() {
+                    let mut other = fresh.clone();
+                    match r {
+                        Rep1::Whole(w) => w.swap_encrypter(&mut other),
+                        Rep1::Halves(e, _) => {
+                            let (e2, _) = other.split();
+                            *e = e2;
+                        }
+                        Rep1::Dead => {}
+                    }
+                }
+                m_enc = m2;
+                swapped = true;
+                rep.count("sending_half_replaced", 1);
+            }
             _ => {
                 let i = rng.below(replicas.len() as u64) as usize;
                 if let Rep1::Halves(..) = replicas[i] {
                     if let Rep1::Halves(e, d) = std::mem::replace(&mut replicas[i], Rep1::Dead) {
                         match guard(|| W::unsplit(e.clone(), d.clone())) {
                             Ok(None) => replicas[i] = Rep1::Halves(e, d),
+                            Ok(Some(Err(()))) if swapped => {
+                                // the halves carry different keys now: refusing is right
+                                replicas[i] = Rep1::Halves(e, d);
+                                rep.count("unsplit_refused_after_half_replaced", 1);
+                            }
+                            Ok(Some(Ok(_))) if swapped => {
+                                rep.violation(
+                                    &format!("c12:{}:unsplit_accepts_different_keys:after_swap", W::NAME),
+                                    "unsplit joined halves that carry different session keys".into(),
+                                    replay,
+                                );
+                                return;
+                            }
                             Ok(Some(Ok(w))) => {
                                 replicas[i] = Rep1::Whole(w);
                                 rep.count("unsplits_ok", 1);
@@ -542,6 +647,26 @@ pub fn unsplit_pairs(rep: &mut Rep, rng: &mut Rng) {
         }
         rep.cell(&[41, bit as u64]);
     }
+    // differences that cancel under XOR / addition, and the same bytes in another order
+    for k2 in crate::streams::permuted_keys(&k, rng) {
+        if k2 == k {
+            continue;
+        }
+        let (e, _) = mk(k).split();
+        let (_, d) = mk(k2).split();
+        rep.ev(1);
+        let p1 = e.is_pair_of(&d);
+        let p2 = d.is_pair_of(&e);
+        let ok = e.unsplit(d).is_ok();
+        if p1 || p2 || ok {
+            rep.violation(
+                "c12:vanilla:unsplit_accepts_different_keys:cancelling_difference",
+                format!("keys {} and {} (same bytes reordered / cancelling difference): is_pair_of {} / {}, unsplit ok {}", hex(&k), hex(&k2), p1, p2, ok),
+                replay.clone(),
+            );
+        }
+        rep.cell(&[42, 0]);
+    }
     // unrelated keys
     let (e, _) = mk(k).split();
     let (_, d) = mk(rng.arr()).split();
@@ -561,7 +686,7 @@ yields compared with the models. distinct = op-kind 3-grams per expansion + unsp
         .to_string();
     let (nhist, max_ops, max_chunk, rounds, ksets): (usize, usize, usize, usize, usize) = match tier {
         "quick" => (16_000, 400, 300, 2000, 40),
-        "thorough" => (400_000, 400, 300, 40_000, 2000),
+        "thorough" => (1_200_000, 400, 300, 100_000, 6000),
         _ => (3, 14, 40, 2, 0),
     };
     let shards = if tier == "miri" { 1 } else { 64 };
@@ -572,14 +697,15 @@ yields compared with the models. distinct = op-kind 3-grams per expansion + unsp
         for i in 0..per {
             let k: [u8; 40] = rng.arr();
             let hs = rng.next();
-            match (sh + i) % 4 {
+            let which = if tier == "miri" { [0usize, 1, 2 + (seed as usize % 2)][i % 3] } else { (sh + i) % 4 };
+            match which {
                 0 => history::<vanilla_header::HeaderCrypto>(&mut rep, k, hs, max_ops, max_chunk),
                 1 => history::<tbc_header::HeaderCrypto>(&mut rep, k, hs, max_ops, max_chunk),
                 2 => history::<wrath_header::ClientCrypto>(&mut rep, k, hs, max_ops, max_chunk),
                 _ => history::<wrath_header::ServerCrypto>(&mut rep, k, hs, max_ops, max_chunk),
             }
         }
-        for _ in 0..per / 4 + 1 {
+        for _ in 0..(if tier == "miri" { (seed % 3 == 0) as usize } else { per / 4 + 1 }) {
             let k: [u8; 40] = rng.arr();
             let hs = rng.next();
             wrath_two_step(&mut rep, k, hs, if max_ops > 100 { 40 } else { 3 });
@@ -599,7 +725,8 @@ yields compared with the models. distinct = op-kind 3-grams per expansion + unsp
     for i in 0..rounds {
         let k: [u8; 40] = rng.arr();
         let s = rng.next();
-        match i % 4 {
+        let which = if tier == "miri" { [0usize, 1 + (seed as usize % 3)][i % 2] } else { i % 4 };
+        match which {
             0 => threaded::<vanilla_header::HeaderCrypto>(&mut rep, k, s, msgs, true),
             1 => threaded::<tbc_header::HeaderCrypto>(&mut rep, k, s, msgs, true),
             2 => threaded::<wrath_header::ClientCrypto>(&mut rep, k, s, msgs, true),
